@@ -296,7 +296,7 @@ def classify(rec, clauses):
 def run(ctx):
     thorough = ctx.tier == "thorough"
     rng = random.Random(ctx.seed * 217645177 + 11)
-    cases = [gen_case(rng, k + 1) for k in range(20000 if thorough else 1500)]
+    cases = [gen_case(rng, k + 1) for k in range(20000 if thorough else 3000)]
     recs = ctx.pmap(execute, cases)
     bad = ctx.validate("C11Trace", recs, jvms=16 if thorough else 8, chunk=400)
     for r in recs:
